@@ -1047,7 +1047,7 @@ func c01Gen(r *rand.Rand, tier string, emit func(string)) {
 
 func init() {
 	// the search is exponential on some of the big-cell families: a generous limit (termination, not speed, is checked)
-	register(&Proto{Name: "canon", Props: []string{"C01"}, Run: func(a []string) Result { return c01RunCanon(a, false) }, Gen: c01Gen, Timeout: 10 * time.Minute})
-	register(&Proto{Name: "canonx", Props: []string{}, Run: func(a []string) Result { return c01RunCanon(a, true) }, Gen: func(*rand.Rand, string, func(string)) {}, Timeout: 10 * time.Minute})
+	register(&Proto{Name: "canon", Props: []string{"C01"}, Run: func(a []string) Result { return c01RunCanon(a, false) }, Gen: c01Gen, Timeout: 90 * time.Second})
+	register(&Proto{Name: "canonx", Props: []string{}, Run: func(a []string) Result { return c01RunCanon(a, true) }, Gen: func(*rand.Rand, string, func(string)) {}, Timeout: 90 * time.Second})
 	register(&Proto{Name: "canon2", Props: []string{}, Run: c01RunCanon2, Gen: func(*rand.Rand, string, func(string)) {}})
 }
